@@ -12,6 +12,8 @@ For every record (t_e, y_e, g):
  (5) along the recorded trajectory (harness Hermite piece of the containing step) g crosses at t_e with the sign of
      d g / d tau (tau = direction of integration) that `direction` asks for
  (6) records are sorted by sign(dt) x t
+Part `near_boundary`: y' = const, fixed-step methods with LONG steps (1 .. 100), time / state events whose crossing lies
+0.5 .. 1e4 probe widths (eps^0.75 x step) before or after a step boundary, incl. just before t0 and just beyond tf.
 """
 import math
 
